@@ -4,7 +4,7 @@ from vlib import harness, santriage, build
 from vlib.core import Result, Violation, Inconclusive, WORK
 
 
-def run_ds(prop, name, tier, seed, plans, rule, defines=(), min_schedules=50):
+def run_ds(prop, name, tier, seed, plans, rule, defines=(), min_schedules=50, tsan_by_design=()):
     """plans: list of dict(flavour, args(list), total, nproc, timeout, label). Each plan runs the
     harness binary `name` in a flavour. Violations are keyed '<flavour-class>:<harness key>'."""
     res = Result("exploration")
@@ -46,6 +46,11 @@ def run_ds(prop, name, tier, seed, plans, rule, defines=(), min_schedules=50):
                                             dict(cmd=cl, rc=rc, tail=tail)))
         if logdir:
             viol, diag = santriage.triage_tsan_logs(out.tsan_logs)
+            for k in list(viol):
+                # write/write reports inside a region that the code protects with a lock ThreadSanitizer cannot see (DESIGN.md section 5)
+                if any(k.endswith(":" + pair) for pair in tsan_by_design):
+                    diag["by-design:" + k] = diag.get("by-design:" + k, 0) + 1
+                    del viol[k]
             for k, text in viol.items():
                 res.violations.append(Violation(k, "[%s] ThreadSanitizer class-2 report\n%s" % (label, text), dict(cmd=st["cmd"], report=text)))
             res.extra.setdefault("tsan_diagnostics", {})
